@@ -15,7 +15,7 @@ from __future__ import annotations
 import itertools
 import re
 
-from ..absdom import PregexHooks, make_operand
+from ..absdom import PregexHooks, make_operand, pattern_of
 from ..classsets import merge, named_classes, of_chars, denotes
 from ..interp import FuncRef, Interp, Obj, PyRaise
 from ..model import AnalysisError, norm_text
@@ -277,7 +277,7 @@ def _eval_chunk(args):
         if kind == "raise":
             out.append(("raise", (v.name, norm_text(v.node) if v.node is not None else None)))
         elif hooks.handed and isinstance(v, Obj):
-            out.append(("ok", (hooks.handed[-1][0], hooks.handed[-1][1], v.fields.get("_Pregex__pattern"), v.fields.get("_Class__verbose"),
+            out.append(("ok", (hooks.handed[-1][0], hooks.handed[-1][1], pattern_of(v), v.fields.get("_Class__verbose"),
                                v.fields.get("_Class__is_negated"))))
         else:
             out.append(("raise", ("<no class constructed>", None)))
